@@ -26,7 +26,8 @@ def enum_sort(cls):
     """z3 EnumSort for an Enum class read from the source: (sort, {member: const}, {member: python value})"""
     if cls.key not in _ENUM_SORTS:
         members = cls.enum_members()
-        sort, consts = z3.EnumSort(cls.key.replace(".", "_"), [m for m, _ in members])
+        tag = cls.key.replace(".", "_")
+        sort, consts = z3.EnumSort(tag, [f"{tag}__{m}" for m, _ in members])  # constructor names must be unique across enums (SMT-LIB export)
         _ENUM_SORTS[cls.key] = (sort, dict(zip([m for m, _ in members], consts)), dict(members))
     return _ENUM_SORTS[cls.key]
 
